@@ -107,6 +107,10 @@ def manifest_engine_for(prop):
             for b in s["bad"]:
                 tag = b["kind"] + ("-" + b["field"] if b.get("field") else "")
                 viol.append(_viol(prop, tag, "manifest-" + fam, b))
+                if prop == "C10" and fam == "attrs" and b["kind"] == "field":
+                    # rule attributes are expanded with $in / $out / $in_newline / $out_newline,
+                    # build-block bindings and file scope: C11's rules as well
+                    viol.append(_viol("C11", tag, "manifest-" + fam, b))
                 if prop == "C11" and b["kind"] == "field":
                     # a mis-evaluated command, description or path is also "not the declared
                     # command / path of the step" (C10's statement)
